@@ -181,6 +181,7 @@ def require_actions(res, names):
 # Rust harness
 
 _built = set()
+TARGET = os.environ.get("VERIF_COV_TARGET") or os.path.join(HARNESS, "target")
 
 
 def cargo_build(package="vh"):
@@ -190,6 +191,9 @@ def cargo_build(package="vh"):
     t0 = time.time()
     env = dict(os.environ)
     env["CARGO_NET_OFFLINE"] = "true"
+    if os.environ.get("VERIF_COV_TARGET"):      # coverage measurement of the checks themselves (bin/coverage): prebuilt, instrumented
+        _built.add(package)
+        return
     p = subprocess.run(["cargo", "build", "--offline", "-q", "-p", package], cwd=HARNESS, env=env,
                        stdout=subprocess.PIPE, stderr=subprocess.STDOUT, text=True)
     if p.returncode != 0:
@@ -202,7 +206,7 @@ def cargo_build(package="vh"):
 def harness(package, args, stdin=None, timeout_s=1800, env_extra=None):
     """Run a harness binary; returns stdout text.  Non-zero exit = tool error."""
     cargo_build(package)
-    exe = os.path.join(HARNESS, "target", "debug", package)
+    exe = os.path.join(TARGET, "debug", package)
     env = dict(os.environ)
     env.setdefault("RUST_BACKTRACE", "0")
     if env_extra:
